@@ -84,6 +84,31 @@ F = {
 del F['f_fatal']
 
 
+_PROBES = None
+
+
+def probes():
+    """one probe source per CPU named by the golden corpus: a label at the start of every segment the assembler knows, their values
+    reported in a warning (a diagnostic naming the file, so it is part of the per-file comparison); segments the target does not
+    have are rejected the same way in the solo run"""
+    global _PROBES
+    if _PROBES is None:
+        _PROBES = {}
+        for t in corpus.tests():
+            c = tiny_of(t)
+            if not c:
+                continue
+            name = 'g_segprobe_' + re.sub(r'\W', '_', c.split()[1].lower())
+            if name in _PROBES:
+                continue
+            segs = ('data', 'xdata', 'idata', 'bdata', 'io', 'reg', 'rom', 'eedata')
+            src = c + ''.join('\tsegment %s\np%s:\n' % (sg, sg) for sg in segs) + '\tsegment code\n' + \
+                '\twarning "%s"\n' % ' '.join('%s=\\{p%s}' % (sg, sg) for sg in segs)
+            _PROBES[name] = src
+        F.update(_PROBES)
+    return _PROBES
+
+
 def half_of(t):
     """a failing predecessor made from a golden source: its first half (whatever state that leaves pending in the target's code
     generator - open constructs, literal pools, ASSUMEs, modes) followed by an unknown instruction"""
@@ -110,6 +135,7 @@ def groups():
 def subspaces(tier):
     g = groups()
     subs = []
+    q = tier == 'quick'
 
     def pairs():
         for fl, ts in sorted(g.items()):
@@ -152,6 +178,17 @@ def subspaces(tier):
                 yield {'k': 'seq', 'files': [pred, succ], 'flags': []}
                 yield {'k': 'seq', 'files': [pred, 'f_ok_defsym', succ], 'flags': []}
     subs.append(('cpu-option-and-pipeline-state', cpuopt()))
+
+    def segstarts():
+        # where each segment of a target starts is that target's fact, not what the file before left behind: a probe of every
+        # corpus CPU behind a probe of a target with other segment starts (thorough: behind every other probe)
+        P = sorted(probes())
+        first = [x for x in P if re.search(r'_(8051|atmega8|320c541|xag3|1802|z8601|68000|16c54|sx20|msm5840|z80|6502)$', x)] if q else P
+        for a in first:
+            for b in P:
+                if a != b:
+                    yield {'k': 'seq', 'files': [a, b], 'flags': []}
+    subs.append(('segment-starts: probe of every corpus CPU behind %s' % ('10 targets with other segment starts' if q else 'every other probe'), segstarts()))
     OPTS18 = [['-u'], ['-C'], ['-A'], ['-L'], ['-g', 'MAP'], ['-s', '-L'], ['-x', '-x'], ['-P'], ['-M'], ['-r'], ['-u', '-Werror'], ['-I', '-L'], ['-t', '255', '-L']]
 
     def optpairs():
@@ -191,6 +228,8 @@ _solo = {}
 
 
 def putfile(t):
+    if t.startswith('g_segprobe_'):
+        probes()
     # every source lives in its own directory: several tests ship include files of the same name
     d = os.path.join(core.workdir(), t)
     os.makedirs(d, exist_ok=True)
